@@ -18,7 +18,7 @@ kernel sus_lo: pybrops/core/random/sampling.py :: stochastic_universal_sampling 
     out of scope (parameter): k = numpy.prod(size)
     out of scope (parameter): tot_fit = p.sum()
     out of scope (parameter): offset = rng.uniform(0.0, ptr_dist)
-kernel tiled_qu_re: pybrops/core/random/sampling.py :: tiled_choice  sha=5fb741029bc9fb9d  ok
+kernel tiled_qu_re: pybrops/core/random/sampling.py :: tiled_choice  sha=6d0c85e176d74739  ok
     slice: targets ['qu', 're'] -> ('qu', 're')
     out of scope (parameter): noption = len(a)
 -/
